@@ -318,6 +318,11 @@ static inline void _rand_interpolation(unsigned int i,
   for(k=0, bufW=W, sumW=0.0; k<nn; k++, bufW++)
     sumW += *bufW;
 
+  /* No unmasked neighbour with positive weight: nothing to draw from
+     (J[k] below would be read past the appended neighbours) */
+  if (!(sumW > 0.0))
+    return;
+
   draw = sumW*prng_double(rng);
 
   for(k=0, bufW=W, sumW=0.0; k<nn; k++, bufW++) {
